@@ -233,7 +233,7 @@ func newE2(params json.RawMessage) *e2Machine {
 			}
 		}
 	}
-	if p.Prefix == "joined" || p.Prefix == "long" {
+	if p.Prefix == "joined" || p.Prefix == "long" || p.Prefix == "bulk1100" {
 		for _, c := range m.cls {
 			for _, k := range p.Keys {
 				if v := m.Apply(pt.Action{Op: "open", R: c.idx, T: k, K: "soc"}); v != nil {
@@ -254,6 +254,32 @@ func newE2(params json.RawMessage) *e2Machine {
 				m.fatal = v
 				return m
 			}
+		}
+	}
+	if p.Prefix == "bulk1100" {
+		// every client has joined; client 0 then commits ONE transaction of 1100 operations and has not synced yet: more
+		// than any buffer or page size of the push path, and it must reach every other client as one unit or not at all
+		d := m.cls[0].dts[p.Keys[0]]
+		var err error
+		switch m.cls[0].typ {
+		case "map":
+			err = d.rep.mp.Transaction("bulk", func(mt orda.MapInTx) error {
+				for i := 0; i < 1100; i++ {
+					mt.Put(fmt.Sprintf("b%04d", i), i)
+				}
+				return nil
+			})
+		default:
+			err = d.rep.cnt.Transaction("bulk", func(ct orda.CounterInTx) error {
+				for i := 0; i < 1100; i++ {
+					ct.IncreaseBy(1)
+				}
+				return nil
+			})
+		}
+		if err != nil {
+			m.fatal = viol("E2:harness:bulk-transaction", "%v", err)
+			return m
 		}
 	}
 	if p.Prefix == "long" {
